@@ -87,13 +87,28 @@ def dump_resource(draw, name, tfp=None, max_fields=6, max_rows=8, types=None, so
 @st.composite
 def dump_package(draw, tfp=None, max_res=3, **kw):
     n = draw(st.integers(1, max_res))
-    names = draw(st.lists(st.sampled_from(['res1', 'data', 'a.b', 'sub/res', 'x-1']), min_size=n, max_size=n, unique=True))
+    # (names that share the part before their first dot: a.b / a.c / a.b.c -> a.b.csv, a.c.csv, a.b.c.csv)
+    names = draw(st.lists(st.sampled_from(['res1', 'data', 'a.b', 'sub/res', 'x-1', 'a.c', 'a.b.c']), min_size=n, max_size=n,
+                          unique=True))
     pkg = [draw(dump_resource(nm, tfp=tfp, **kw)) for nm in names]
     for r in pkg:
         if '/' in r['name']:
             r['name'] = r['name'].replace('/', '_')
             r['path'] = 'sub/' + r['name'] + '.csv'
+        if draw(st.integers(0, 3)) == 0:
+            # the resource arrives with the properties of the file it was loaded from
+            r['res_extra'] = draw(st.sampled_from([{'encoding': 'latin-1', 'format': 'csv'}, {'encoding': 'utf-16'},
+                                                   {'format': 'csv'}, {'encoding': 'utf-8', 'format': 'json'}]))
     return pkg
+
+
+def per_resource_formats(draw, pkg, opts):
+    """force_format=False: every resource is written in the format its own path names (csv / json)."""
+    import os
+    opts['force_format'] = False
+    for r in pkg:
+        base = os.path.splitext(r.get('path') or (r['name'] + '.csv'))[0]
+        r['path'] = base + '.' + draw(st.sampled_from(['csv', 'json']))
 
 
 @st.composite
